@@ -136,6 +136,9 @@ fn run_history_inner(s: &mut Session, m: DistanceMetric, k: usize, start: &[[f64
 }
 
 pub fn run(s: &mut Session, ctx: &Ctx) {
+    // whole optimiser runs on tie-heavy lists (single and repeated runs): the table each run returns
+    // equals recomputation from its colours
+    super::c14::tie_cases(s, ctx);
     let mut rng = Rng::new(ctx.seed);
     // alphabet with duplicates and collinear equidistant points (ties)
     let alpha: [[f64; 3]; 6] = [
